@@ -1527,6 +1527,12 @@ func (m *Leaf) getOriginalParent() Definition {
 func (m *Leaf) clone(parent Meta) interface{} {
 	copy := *m
 	copy.parent = parent
+	if m.dtype != nil {
+		// every copy compiles its own type, a leafref path leads somewhere else from
+		// every place a grouping is used
+		copy.dtype = m.dtype.clone()
+	}
+	
 	if m.musts != nil {
 		copy.musts = make([]*Must, len(m.musts))
 		for i, must := range m.musts {
@@ -1755,6 +1761,12 @@ func (m *LeafList) getOriginalParent() Definition {
 func (m *LeafList) clone(parent Meta) interface{} {
 	copy := *m
 	copy.parent = parent
+	if m.dtype != nil {
+		// every copy compiles its own type, a leafref path leads somewhere else from
+		// every place a grouping is used
+		copy.dtype = m.dtype.clone()
+	}
+	
 	if m.musts != nil {
 		copy.musts = make([]*Must, len(m.musts))
 		for i, must := range m.musts {
